@@ -292,6 +292,12 @@ func c13RunCase(cs c13Case, seed int64) c13Verdict {
 			}
 			for _, k := range cmd.Keys {
 				val, hit := hits[k]
+				if hit && cmd.Op == "gete" && cs.Mix == "gete-ttl" && (val.Exptime == 0 || val.Exptime > 5000) {
+					w["key"] = k
+					w["exptime"] = val.Exptime
+					setBad("gete reports no remaining lifetime for a value stored with a TTL of 5000 s", w)
+					return
+				}
 				if d := c.m.read(k, hit, val); d != "" {
 					w["key"] = k
 					setBad(d, w)
@@ -351,6 +357,19 @@ func c13RunCase(cs c13Case, seed int64) c13Verdict {
 				g.Keys = [][]string{{a, a}, {a, a, b}, {b, a, a}, {a, b, a}, {a, a, a}}[r.Intn(5)]
 				return g
 			}
+		case "gete-ttl":
+			// values with a TTL read with gete: a transparently retried key still reports the
+			// backend's remaining lifetime
+			if r.Intn(3) > 0 {
+				g := wire.Cmd{Op: "gete", Opaque: r.Uint32() >> 1, NonQuiet: r.Intn(2) == 0}
+				g.NoopEnd = !g.NonQuiet
+				for j := 0; j < 2+r.Intn(3); j++ {
+					g.Keys = append(g.Keys, c.ns+fmt.Sprint(r.Intn(3)))
+				}
+				return g
+			}
+			c.id++
+			return wire.Cmd{Op: "set", Key: c.ns + fmt.Sprint(r.Intn(3)), Value: makeValue(c.id, 60), Flags: r.Uint32(), TTL: 5000}
 		case "mget-slow":
 			// three distinct keys, a consumer that pauses after the first value
 			if r.Intn(3) > 0 {
@@ -436,7 +455,7 @@ func c13RunCase(cs c13Case, seed int64) c13Verdict {
 		}
 		return false
 	}
-	getsOnly := cs.Mix == "mget-dup" || cs.Mix == "mget-slow"
+	getsOnly := cs.Mix == "mget-dup" || cs.Mix == "mget-slow" || cs.Mix == "gete-ttl"
 	switch cs.Cut {
 	case "double":
 		// the first attempt of a multi-get is cut before any reply, its retry after J+1 replies
@@ -542,7 +561,11 @@ func c13RunCase(cs c13Case, seed int64) c13Verdict {
 		// collapse the uncertainty left by the cuts with unconditional writes, then exact ops
 		for j := 0; j < 4; j++ {
 			c.id++
-			doOp(c, wire.Cmd{Op: "set", Key: c.ns + fmt.Sprint(j), Value: makeValue(c.id, 20), Flags: c.id})
+			collapse := wire.Cmd{Op: "set", Key: c.ns + fmt.Sprint(j), Value: makeValue(c.id, 20), Flags: c.id}
+			if cs.Mix == "gete-ttl" {
+				collapse.TTL = 5000
+			}
+			doOp(c, collapse)
 		}
 	}
 	if !round(10, 2) {
@@ -574,7 +597,7 @@ func childC13(args []string) int {
 	for j := 0; j < maxJ; j++ {
 		add("before", j, 0)
 		add("after", j, 0)
-		for _, b := range []int{1, 24, 25, 40} {
+		for _, b := range []int{1, 12, 20, 24, 25, 40} {
 			add("mid", j, b)
 		}
 	}
@@ -596,6 +619,9 @@ func childC13(args []string) int {
 	for i := 0; i < run.Pick(4, 24); i++ {
 		cases = append(cases, c13Case{Pool: 1, Callers: 1, Mix: "mget-slow", Cut: "double", J: 1 + i%2, Batch: 10})
 	}
+	for i := 0; i < run.Pick(9, 45); i++ {
+		cases = append(cases, c13Case{Pool: 1 + i%2, Callers: []int{1, 2, 4}[i%3], Mix: "gete-ttl", Cut: []string{"after", "mid", "before"}[i%3], J: i % 3, Bytes: []int{24, 36, 60}[i%3], Batch: 10})
+	}
 	for i := 0; i < run.Pick(1, 3); i++ {
 		cases = append(cases, c13Case{Pool: 1 + i, Callers: 4, Mix: "single", Cut: "long-outage", Bytes: 16 + 5*i, Batch: 4})
 	}
@@ -607,7 +633,7 @@ func childC13(args []string) int {
 	}
 	// callers need bursts at least j+1 long: make sure enough callers / batch size for large j
 	for i := range cases {
-		if cases[i].Mix == "mget-dup" || cases[i].Mix == "mget-slow" {
+		if cases[i].Mix == "mget-dup" || cases[i].Mix == "mget-slow" || cases[i].Mix == "gete-ttl" {
 			continue
 		}
 		if cases[i].J >= 2 && (cases[i].Cut == "before" || cases[i].Cut == "after" || cases[i].Cut == "mid") {
